@@ -97,6 +97,8 @@ func runC07(p *Prog, r *Report) {
 	r.Count("bounds sites proved", np)
 	c07ParseAgreement(p, r)
 	c07Mirror(p, r, fns)
+	r.Rule("D7-history-free", "parsing and comparing depend on the operands only: no process-wide mutable state")
+	noSharedMutableState(p, r, "D7-history-free", "a cache of parsed versions or of comparison results shared between ecosystems makes compare(a, b) depend on earlier calls", fns, "semantic")
 }
 
 // checkBoundsA is checkBounds with audit entries that may carry machine-checked witnesses.
